@@ -29,6 +29,19 @@ fn f(x: f64) -> Value {
 }
 
 fn num(rng: &mut Rng) -> Value {
+    // occasionally: signed zeros (tie in every ordering, distinguishable in the output) and
+    // magnitudes whose sums leave the doubles (passed through the document, like close numbers)
+    if rng.chance(1, 12) {
+        return match rng.below(8) {
+            0 | 1 => f(-0.0),
+            2 => f(0.0),
+            3 => json!(0),
+            k => {
+                CLOSE_USED.with(|c| c.set(true));
+                f([1e308, 9e307, -1e308, 1.7e308][k - 4])
+            }
+        };
+    }
     match rng.below(10) {
         0 => json!(0),
         1 => f(-0.5),
@@ -220,7 +233,24 @@ fn gen_args(name: &str, rng: &mut Rng) -> Vec<A> {
     match name {
         "abs" | "ceil" | "floor" => vec![A::V(num(rng))],
         "avg" | "sum" => vec![A::V(nums(rng))],
-        "contains" => match rng.below(3) {
+        "contains" => match rng.below(4) {
+            3 => {
+                // a needle that is a DIFFERENT number of the same sign and a similar, very large or very
+                // small magnitude as an element (well separated: the tolerant `==` must still say no)
+                let pairs = [(1e308, 9e307), (1.7e308, 1.1e308), (-1e308, -9e307), (1e-308, 2e-308), (5e-324, 1e-323), (1e300, 2e300), (9e307, 9e307)];
+                let (a, b) = pairs[rng.below(pairs.len())];
+                CLOSE_USED.with(|c| c.set(true));
+                let mut xs: Vec<Value> = (0..rng.below(4)).map(|_| json!(rng.range(0, 5))).collect();
+                let at = rng.below(xs.len() + 1);
+                xs.insert(at, f(a));
+                let wrap = rng.below(3);
+                let (arr, needle) = match wrap {
+                    0 => (Value::Array(xs), f(b)),
+                    1 => (Value::Array(vec![Value::Array(xs.clone()), json!(1)]), Value::Array({ let mut y = xs.clone(); y[at] = f(b); y })),
+                    _ => (Value::Array(vec![json!({"k": f(a)})]), json!({"k": f(b)})),
+                };
+                vec![A::V(arr), A::V(needle)]
+            }
             0 => {
                 let a = if rng.chance(1, 2) { nums(rng) } else { Value::Array((0..rng.below(6)).map(|_| gen_doc(rng, 2)).collect()) };
                 let needle = match a.as_array() {
@@ -378,6 +408,10 @@ fn size_sweep(rep: &mut Report, args: &Args, ev: &Evaluator, strict: &Opts) {
     ];
     let mut sizes: Vec<usize> = (0..=130).collect();
     sizes.extend_from_slice(&[255, 256, 257, 511, 512, 513, 1000, 1023, 1024, 1025]);
+    if args.tier == "thorough" {
+        sizes.extend(131..=600);
+        sizes.extend_from_slice(&[2047, 2048, 2049, 4095, 4096, 4097, 32767, 32768, 32769, 65535, 65536, 65537, 100_000]);
+    }
     let trees: Vec<_> = EXPRS.iter().map(|t| parse(t, strict).expect("sweep expression parses")).collect();
     for (si, &n) in sizes.iter().enumerate() {
         if si as u64 % args.shards != args.shard {
